@@ -388,7 +388,10 @@ def main():
                     tail = r["log"][-1500:]
                     dump = os.path.join(outdir, "%s-%d.inflight" % (st["name"], r["worker"]))
                     case = open(dump).read().strip() if os.path.exists(dump) else ""
-                    if r["rc"] in (77, -6, -11, -4, -7, -8, -5, 134, 139) and case:
+                    if r["rc"] == 78 and case:
+                        violations.append(dict(cls="hang", case=case, explain="a validation did not return: no evaluation finished within three CPU-time ticks of the watchdog (>= 30 s of CPU time inside one call; inputs are <= 64 KiB outside the huge stages)",
+                                               binary=st.get("binary"), stage=st["name"]))
+                    elif r["rc"] in (77, -6, -11, -4, -7, -8, -5, 134, 139) and case:
                         violations.append(dict(cls="crash", case=case, explain="harness process died (exit %d): %s" % (r["rc"], crash_digest(r["log"])),
                                                binary=st.get("binary"), stage=st["name"]))
                     else:
@@ -439,7 +442,7 @@ def main():
                 if not f["case"]:
                     continue
                 rcs = [replay_case(exe, f["case"], datadir, ctx.get("replay_args"))[0] for _ in range(3)]
-                if all(rc in (3, 77) or rc < 0 or rc in (134, 139) for rc in rcs):
+                if all(rc in (3, 77, 78) or rc < 0 or rc in (134, 139) for rc in rcs):
                     confirmed = f
                     break
                 log("failure did not reproduce 3x (%s): %s" % (rcs, f["case"][:200]))
